@@ -2,11 +2,16 @@
 
 use crate::fw::{Cfg, Phase};
 
+pub mod c02;
 pub mod c03;
 pub mod c10;
+pub mod c13;
+pub mod synt;
 
 pub fn build(cfg: &Cfg) -> (Vec<Box<dyn Phase>>, Result<String, String>) {
     match cfg.property.as_str() {
+        "C02" => (c02::phases(cfg), c02::selfcheck()),
+        "C13" => (c13::phases(cfg), c13::selfcheck()),
         "C03" => (c03::phases(cfg), c03::selfcheck()),
         "C10" => (c10::phases(cfg), c10::selfcheck()),
         other => (Vec::new(), Err(format!("unknown property {}", other))),
